@@ -53,6 +53,7 @@ def RV(x):
 
 
 AUX_DEFS = {}      # z3 ast id of an aux-defining assertion -> aux variable name
+REL_DEFS = {}      # z3 ast id of a relation-defining assertion -> (variable name, formula, projection or None)
 
 
 def _aux_name(a):
@@ -63,8 +64,48 @@ def _aux_name(a):
     return None
 
 
+def _rel_entry(a):
+    e = REL_DEFS.get(a.get_id())
+    if e is not None and e[1].eq(a):
+        return e
+    return None
+
+
+def project_relations(assertions):
+    """relation variables that occur only in their own defining assertions are eliminated by exact projection"""
+    ents = [(a, _rel_entry(a)) for a in assertions]
+    if not any(e for _, e in ents):
+        return assertions
+    used = {}
+    for a, e in ents:
+        if e is None:
+            for n in _collect_consts([a]).keys():
+                used[n] = True
+    # a relation variable may occur in the radicand of another relation (e.g. g2^2 = 1 - ct^2 - ...): iterate to a fixed point
+    changed = True
+    keepdefs = set()
+    while changed:
+        changed = False
+        for a, e in ents:
+            if e is not None and e[0] in used and a.get_id() not in keepdefs:
+                keepdefs.add(a.get_id())
+                for n in _collect_consts([a]).keys():
+                    if n not in used:
+                        used[n] = True
+                        changed = True
+                changed = True
+    out = []
+    for a, e in ents:
+        if e is None or a.get_id() in keepdefs:
+            out.append(a)
+        elif e[2] is not None:
+            out.append(e[2])
+    return out
+
+
 def prune_aux(assertions):
     """drop definitions of auxiliary roots that the rest of the query does not mention (closure over radicands)"""
+    assertions = project_relations(assertions)
     aux = [(a, _aux_name(a)) for a in assertions]
     if not any(n for _, n in aux):
         return assertions
@@ -171,12 +212,20 @@ class ZCtx:
             c = g * g == self.pz(rep)
             if n in f.auxdef:
                 AUX_DEFS[c.get_id()] = (n, c)
+            else:
+                # declared relation variable g (sine of an angle, quaternion scalar part, ...): if g occurs nowhere else in a query,
+                # "exists g: g^2 = rep (and sign fact)" is replaced by its exact projection rep >= 0 (rep > 0 for a strict sign fact)
+                sg0 = f.sign.get(n)
+                rz = self.pz(rep)
+                REL_DEFS[c.get_id()] = (n, c, (rz > 0) if sg0 in ('>', '<') else (rz >= 0))
             cs.append(c)
         for n, sg in f.sign.items():
             v = self.var(n)
             c = {'>': v > 0, '>=': v >= 0, '<': v < 0, '<=': v <= 0}[sg]
             if n in f.auxdef:
                 AUX_DEFS[c.get_id()] = (n, c)
+            elif f.idx[n] in f.rel:
+                REL_DEFS[c.get_id()] = (n, c, None)        # sign fact of a relation variable: dropped together with its definition
             cs.append(c)
         return cs
 
